@@ -18,6 +18,16 @@ Proof. vm_compute. reflexivity. Qed.
    connection that handleMITM switched to the TLS session) *)
 Lemma ob_mitm_session_reenters_handle : mitm_session_reenters_handle = true.
 Proof. vm_compute. reflexivity. Qed.
+(* the http.Handler variant completes an empty URL.Host from the Host field BEFORE the modifiers run (the connection
+   handler does so in readRequest): the checks see the target the request is then sent to *)
+Lemma ob_handler_host_fixup : handler_host_fixup_before = true /\ handler_host_fixup_after = false.
+Proof. vm_compute. split; reflexivity. Qed.
+(* authentication keeps no state: the BasicAuth struct has the header name only *)
+Lemma ob_basic_auth_stateless : basic_auth_struct_fields = [b "header string"].
+Proof. vm_compute. reflexivity. Qed.
+(* the configured time-frame list is the one the guard and the modifier see *)
+Lemma ob_timeframe_list_as_configured : timeframe_list_reassigned = false.
+Proof. vm_compute. reflexivity. Qed.
 (* the http.Handler implementation has the same order (no MITM there) *)
 Lemma ob_handler_shapes :
   steps_of handler_handle_steps = [SModifyRequest; SRoundTrip; SModifyResponse; SWriteResponse] /\
